@@ -104,6 +104,31 @@ func specHasSubset(v core.Val) bool {
 	return false
 }
 
+// distSelector records which selector clause keywords a spec uses (evidence: the generator's clause mix).
+func distSelector(c *core.Ctx, v core.Val) {
+	seen := map[string]bool{}
+	var walk func(core.Val)
+	walk = func(x core.Val) {
+		for _, e := range x.M {
+			k := string(e.K)
+			switch k {
+			case "R", "a", "f", "i", "r", "|", ".", "@", "~", "subset", "!", "none", "depth", "c":
+				seen[k] = true
+			}
+			walk(e.V)
+		}
+		for _, y := range x.L {
+			walk(y)
+		}
+	}
+	walk(v)
+	names := map[string]string{"R": "ExploreRecursive", "a": "ExploreAll", "f": "ExploreFields", "i": "ExploreIndex", "r": "ExploreRange", "|": "ExploreUnion",
+		".": "Matcher", "@": "ExploreRecursiveEdge", "~": "ExploreInterpretAs", "subset": "Matcher.subset", "!": "StopAt", "none": "limit:none", "depth": "limit:depth", "c": "Condition"}
+	for k := range seen {
+		c.Dist("selector-clause:" + names[k])
+	}
+}
+
 func runC14(c *core.Ctx) error {
 	c.Rule = "graphs and selectors as in C07; every visit path of the advanced walk is resolved with Get, Focus and stepwise lookup; plus random paths (existing, partially existing, non-numeric and signed/zero-padded numeric segments on lists, through links) and random segment strings for the format/parse round trip; non-trivial = path of at least 2 segments or crossing a link; distinct by (graph, path)"
 	c.Explanation = "theorems: parse_toString, get_eq_steps, visit_resolves (every visit path of the model walk resolves, through the model's get, to the visited node), get_fails_iff; segEquals facts from pathSegment.go"
